@@ -469,6 +469,9 @@ type c44Step struct {
 	// not validate, and a reload is requested (it must be refused and change nothing)
 	Rejected     bool     `json:"rejectedEditFirst,omitempty"`
 	RejectedList []c44Tun `json:"rejectedEditTunnels,omitempty"`
+	// unpublish / release only: a tunnel synchronization starts while the removal's RPC is
+	// outstanding
+	SyncOverlaps bool `json:"synchronizationStartsDuringRemoval,omitempty"`
 }
 
 type c44Scenario struct {
@@ -510,6 +513,7 @@ type c44Runner struct {
 	taint  map[string]bool // hostnames whose cache may hold a proxy re-created inside a window
 	hammer map[string]bool // hostnames that changed while hammer traffic was running
 	cur    []c44Tun
+	api    net.Listener // the client's local HTTP API, started on first use
 }
 
 func (r *c44Runner) doc(extra map[string]any) map[string]any {
@@ -660,16 +664,89 @@ func (r *c44Runner) apply(st *c44Step, before []c44Tun) {
 		_, removed := changedHosts(before, st.After, r.h)
 		for _, hn := range removed {
 			var err error
-			if st.Method == "unpublish" {
+			var syncDone chan struct{}
+			if st.SyncOverlaps {
+				// a tunnel synchronization (periodic reconnection, reload) starts while the removal's
+				// RPC is outstanding and runs once the removal is through
+				entered, release := make(chan struct{}), make(chan struct{})
+				var once sync.Once
+				r.fake.mu.Lock()
+				r.fake.removalGate = func() {
+					first := false
+					once.Do(func() { first = true })
+					if first {
+						close(entered)
+						<-release
+					}
+				}
+				r.fake.mu.Unlock()
+				syncDone = make(chan struct{})
+				go func() {
+					defer close(syncDone)
+					select {
+					case <-entered:
+					case <-time.After(5 * time.Second):
+						close(release)
+						return
+					}
+					started := make(chan struct{})
+					inner := make(chan struct{})
+					go func() {
+						close(started)
+						r.c.SyncConfigTunnels(ctx)
+						close(inner)
+					}()
+					<-started
+					time.Sleep(30 * time.Millisecond) // the synchronization is now waiting behind the removal (or, wrongly, ahead of it)
+					close(release)
+					<-inner
+				}()
+			}
+			switch {
+			case st.SyncOverlaps:
+				// the operator's path: the client's local API (it serialises removals with
+				// synchronizations)
+				err = r.removeViaLocalAPI(st.Method, hn)
+			case st.Method == "unpublish":
 				err = r.c.UnpublishTunnel(ctx, client.Tunnel{Hostname: hn})
-			} else {
+			default:
 				err = r.c.ReleaseTunnel(ctx, client.Tunnel{Hostname: hn})
+			}
+			if syncDone != nil {
+				<-syncDone
+				r.fake.mu.Lock()
+				r.fake.removalGate = nil
+				r.fake.mu.Unlock()
+				r.rec.Add("removals_overlapped_by_a_synchronization", 1)
 			}
 			if err != nil {
 				r.t.Fatalf("machinery: removal RPC failed: %v", err)
 			}
 		}
 	}
+}
+
+// removeViaLocalAPI posts /api/unpublish/<hostname> or /api/release/<hostname> to the client's
+// local HTTP server (started on first use).
+func (r *c44Runner) removeViaLocalAPI(method, hostname string) error {
+	if r.api == nil {
+		l, err := net.Listen("tcp", "127.0.0.1:0")
+		if err != nil {
+			return err
+		}
+		r.api = l
+		r.c.VerifStartLocalServer(context.Background(), l)
+	}
+	resp, err := http.Post(fmt.Sprintf("http://%s/api/%s/%s", r.api.Addr(), method, hostname), "text/plain", nil)
+	if err != nil {
+		return err
+	}
+	defer resp.Body.Close()
+	if resp.StatusCode != http.StatusOK {
+		b, _ := io.ReadAll(resp.Body)
+		return fmt.Errorf("local API answered %d: %s", resp.StatusCode, b)
+	}
+	return nil
 }
 
 func runC44(t interface {
@@ -694,6 +771,9 @@ func runC44(t interface {
 	r.inj.client = c
 	r.inj.mu.Unlock()
 	defer func() {
+		if r.api != nil {
+			r.api.Close()
+		}
 		c.Close()
 		c.VerifShutdownProxies()
 		rec.Add("window_connections_handled_inside_window", r.inj.inWindow.Load())
@@ -849,6 +929,9 @@ func genScenario(t *rapid.T, h *c44Harness) *c44Scenario {
 		changed, removed := changedHosts(cur, next, h)
 		if len(changed) == 0 && len(removed) > 0 && len(next) == len(cur)-len(removed) && sameExcept(cur, next, removed) {
 			st.Method = rapid.SampledFrom([]string{"rebuild", "reload", "unpublish", "release"}).Draw(t, "removalMethod")
+			if st.Method == "unpublish" || st.Method == "release" {
+				st.SyncOverlaps = rapid.Bool().Draw(t, "syncOverlaps")
+			}
 		}
 		if st.Method == "reload" && rapid.IntRange(0, 1).Draw(t, "rejectedEditFirst") == 0 {
 			// the file is first edited into something the client must refuse (one entry has an
@@ -901,7 +984,7 @@ func sameExcept(cur, next []c44Tun, removed []string) bool {
 
 func TestC44(t *testing.T) {
 	rec := ev.New(t, "C44")
-	rec.Rule("A case is one configuration change inside a generated scenario: 1..4 initial tunnels over 5 hostnames and 6 self-identifying targets (3 unix-socket, 2 loopback, 1 loopback TLS with a self-signed certificate) with generated options (insecure, header timeout, header mode/host), then 1..3 changes, each 1..3 mutations (retarget, toggle insecure, change timeout, change header mode/host, remove, add, rename, swap targets, none) applied through RebuildTunnels, config-file edit + reload, or Unpublish/Release; before each change a generated subset of (hostname, link kind) connections is made (fills the proxy cache). Modes: sequential; window = for a generated subset of the changed/removed hostnames a connection is handed to the client's incoming-connection handler from inside the 'Shutting down proxy' log call, i.e. after the proxy was invalidated and before the router is rebuilt; hammer = 3 goroutines keep connecting to random hostnames while the changes run. Oracle after every change (hammer: after the last): for every hostname of the pool and one never-configured name, HTTP and TCP links, a new connection through the real handler reaches exactly the configured target (identity reported by the target), with the same Host header / status / header timeout as a FRESH client built from the same tunnel list; unconfigured names are refused; window mode also requires connections for hostnames being removed to be refused. Non-trivial: a changed or removed hostname had a cached proxy when the change started. Distinct = distinct (mode, tunnels before, tunnels after, method, earlier connections, injected connections).")
+	rec.Rule("A case is one configuration change inside a generated scenario: 1..4 initial tunnels over 5 hostnames and 6 self-identifying targets (3 unix-socket, 2 loopback, 1 loopback TLS with a self-signed certificate) with generated options (insecure, header timeout, header mode/host), then 1..3 changes, each 1..3 mutations (retarget, toggle insecure, change timeout, change header mode/host, remove, add, rename, swap targets, none) applied through RebuildTunnels, config-file edit + reload, or Unpublish/Release (for half of those a tunnel synchronization is started while the removal's RPC is outstanding and runs when the removal is through; two fixed scenarios do the same); before each change a generated subset of (hostname, link kind) connections is made (fills the proxy cache). Modes: sequential; window = for a generated subset of the changed/removed hostnames a connection is handed to the client's incoming-connection handler from inside the 'Shutting down proxy' log call, i.e. after the proxy was invalidated and before the router is rebuilt; hammer = 3 goroutines keep connecting to random hostnames while the changes run. Oracle after every change (hammer: after the last): for every hostname of the pool and one never-configured name, HTTP and TCP links, a new connection through the real handler reaches exactly the configured target (identity reported by the target), with the same Host header / status / header timeout as a FRESH client built from the same tunnel list; unconfigured names are refused; window mode also requires connections for hostnames being removed to be refused. Non-trivial: a changed or removed hostname had a cached proxy when the change started. Distinct = distinct (mode, tunnels before, tunnels after, method, earlier connections, injected connections).")
 	rec.Assume("the targets are reachable and answer (unix sockets / loopback)", "a connection arriving in the middle of a change may be served by the old or the new target unless its hostname is being removed; what it leaves behind is judged by connections made after the change", "probe budget 20 s per connection: expiry is inconclusive, never a failure")
 	h := newC44Harness(t)
 
@@ -920,6 +1003,20 @@ func TestC44(t *testing.T) {
 			rec.Witnessed(w.sig, reproduced)
 		}
 		// when not listed, the generated search below reports it as a violation
+	}
+
+	// ---- fixed scenarios: a tunnel synchronization starts while an Unpublish / Release is waiting
+	// for its RPC (generated scenarios reach this only when a change consists of removals alone)
+	for _, method := range []string{"unpublish", "release"} {
+		sc := &c44Scenario{Mode: "sequential", Initial: []c44Tun{{Host: "h1", Target: 0, Link: "http"}, {Host: "h2", Target: 1, Link: "http"}, {Host: "h3", Target: 3, Link: "tcp"}}, Steps: []c44Step{{
+			Warm: []string{"h1/http", "h2/http"}, Mutations: []string{"remove"}, Method: method, SyncOverlaps: true, After: []c44Tun{{Host: "h1", Target: 0, Link: "http"}, {Host: "h3", Target: 3, Link: "tcp"}}}}}
+		for i := range sc.Initial {
+			sc.Initial[i] = h.normalize(sc.Initial[i])
+		}
+		for i := range sc.Steps[0].After {
+			sc.Steps[0].After[i] = h.normalize(sc.Steps[0].After[i])
+		}
+		runC44(t, rec, h, sc, 1)
 	}
 
 	var windows atomic.Int64
